@@ -16,7 +16,7 @@ import fw
 import textgen
 from props import c01
 
-LEAN_PROPS = ["NmlVerif.Props.C04", "NmlVerif.Props.C04Text"]
+LEAN_PROPS = ["NmlVerif.Props.C04", "NmlVerif.Props.C04Text", "NmlVerif.Props.C01E2E"]
 LEVEL = "proof"
 RULE = ("for every binding class: random objects exported by the real writer, then rewritten by presentation-preserving "
         "transformations: (tree level, via lxml) attribute permutation, whitespace and comments between children, explicitly "
@@ -37,13 +37,16 @@ ASSUMPTIONS = c01.ASSUMPTIONS + [
 
 def regenerate(ctx):
     ctx.ir = bindgen.IR()
-    return list(ctx.ir.gaps) + c01.py2lean_quote.regenerate(fw.REPO, fw.LEAN)
+    info = {}
+    gaps = c01.py2lean_quote.regenerate(fw.REPO, fw.LEAN, info)
+    ctx.extra.update(info)
+    return list(ctx.ir.gaps) + gaps
 
 
 def respell(rng, prim, v):
     if prim in ("float", "double"):
         k = rng.randint(0, 3)
-        if "e" in v.lower() or "inf" in v or "nan" in v:
+        if "e" in v.lower() or "inf" in v.lower() or "nan" in v.lower():
             return "+" + v if not v.startswith("-") and k == 0 else v
         if k == 0 and "." in v:
             return v + "0"
